@@ -25,19 +25,22 @@ def mc(name, inv=INV, props=PROPS, spec="MCSpec", view=True, **kw):
 NOTAMP = dict(Tampers="TNone", MaxTamper=0)
 NOFAULT = dict(Faults="FNone", MaxFault=0)
 NONODE = dict(Nodes="{}", MaxNode=0)
-mc("core")
+mc("core", Tampers="TSig")
 mc("twofr", Args="ArgsTwoFr", Tampers="TGroups")
 mc("byz", Args="ArgsByz", ByzPosts="Byz3", MaxByz=1, Tampers="TSig", Nodes="{}", MaxNode=0, **NOFAULT)
 mc("now", Args="ArgsNow", Ticks="TkHour", MaxTick=1, NodeWatch="FALSE", **NOTAMP, **NOFAULT)
 mc("gas", Args="ArgsGas", Plants="PSome", MaxPlant=1, **NOTAMP, **NOFAULT, **NONODE)
-mc("two", NV=2, Args="ArgsTwo", Tampers="TSig", Plants="PTwo", MaxPlant=1, **NOFAULT)
-mc("bad", Args="ArgsBad", Plants="PSome", MaxPlant=1, **NOTAMP, **NONODE)
-mc("list", Args="ArgsList", Plants="PSome", MaxPlant=1, Tampers="TGroups", **NOFAULT, **NONODE)
+mc("two", NV=2, Args="ArgsTwo", Plants="PTwo", MaxPlant=1, **NOTAMP, **NOFAULT)
+mc("bad", Args="ArgsBad", Plants="PSome", MaxPlant=1, **NOTAMP, **NOFAULT, **NONODE)
+mc("list", Args="ArgsList", Plants="PSome", MaxPlant=1, **NOTAMP, **NOFAULT, **NONODE)
 mc("plant", Args="ArgsFetch", Plants="PSomeOld", MaxPlant=2, MaxNode=3, Cmds="{1, 2}", ByzPosts="Byz3", **NOTAMP)
-mc("timer", Args="ArgsFetch", Cmds="{1}", Ticks="TkHour", MaxTick=4, NodeWatch="FALSE", MaxNode=2, ByzPosts="Byz3", MaxByz=2, Tampers="TGroups", MaxFault=2)
+mc("timer", Args="ArgsFetch", Cmds="{1}", Ticks="TkHour", MaxTick=3, NodeWatch="FALSE", MaxNode=2, ByzPosts="Byz3", MaxByz=2, Tampers="TGroups", MaxFault=2)
 mc("strict", DupLastWins="FALSE", Args="ArgsFetch", Plants="PDup", MaxPlant=2, MaxNode=2, Cmds="{1, 2}", Tampers="TGroups")
-mc("four", N=4, T=3, Honest="{1, 2, 3}", Cmds="{1, 2, 3, 4}", Args="ArgsOne", Tampers="TSig", **NOFAULT)
+mc("four", N=4, T=3, Honest="{1, 2, 3}", Cmds="{1, 2, 3, 4}", Args="ArgsOne", **NOTAMP, **NOFAULT)
 mc("core_thorough", Cmds="{1, 2, 3, 4}", MaxTamper=2)
+mc("bad_thorough", Args="ArgsBad", Plants="PSome", MaxPlant=1, **NOTAMP, **NONODE)
+mc("list_thorough", Args="ArgsList", Plants="PSome", MaxPlant=1, Tampers="TGroups", **NOFAULT, **NONODE)
+mc("timer_thorough", Args="ArgsFetch", Cmds="{1}", Ticks="TkHour", MaxTick=4, NodeWatch="FALSE", MaxNode=2, ByzPosts="Byz3", MaxByz=2, Tampers="TGroups", MaxFault=2)
 mc("twofr_thorough", Args="ArgsTwoFr", Tampers="TAll", Cmds="{1, 2, 3, 4}", ByzPosts="Byz3", MaxByz=1)
 mc("byz_thorough", Args="ArgsTwoFr", ByzPosts="Byz3", MaxByz=2, Tampers="TSig", **NOFAULT)
 mc("two_thorough", NV=2, Args="ArgsTwo", Tampers="TAll", Plants="PTwo", MaxPlant=1, Cmds="{1, 2, 3, 4}")
